@@ -1,4 +1,5 @@
 import CnlProofs.Overflow
+import CnlProofs.OverflowFloat
 /-!
 # C07 — checked arithmetic is total: no undefined behaviour, no internal `unreachable`
 
@@ -14,10 +15,13 @@ marker `.ill` of an ill-formed instantiation (so `isDefined` is not satisfied va
 
 * `arith_total`    `+ - *`, **all** type pairs including mixed signedness, both detection paths.
 * `div_total`      `/`, all type pairs including mixed signedness, both paths, divisor ≠ 0.
-* `shl_total`      `<<`, count ≥ 0, outside the open class `0 << n`, `n ≥` width.
-* `neg_total`, `convert_total`.
-* refutations from witnesses (open findings `C07.shl_zero_by_wide_count`, `C07.shr_count_ge_width`):
-  `shl_zero_wide_ub`, `shr_wide_ub`.
+* `shl_total`      `<<`, every count ≥ 0 (no excluded class since the repair of `shl_zero_by_wide_count`).
+* `shr_total`, `shr_value`   `>>`, every count ≥ 0, with the exact value (since the repair of
+  `shr_count_ge_width`).
+* `neg_total`, `convert_total`; `convert_float_total` (floating-point sources, see section 8).
+* refutations of the **as-found** definitions of the repaired findings `C07.shl_zero_by_wide_count`,
+  `C07.shr_count_ge_width`, `C07.float_at_limit_not_flagged` (the as-found operators are kept as
+  `checkedShiftOrig`, `checkedConvertFloatOrig`): `shl_zero_wide_ub`, `shr_wide_ub`, `float_at_limit_ub`.
 
 Hypotheses beyond the task's (see `CnlProperties/C06.lean` for the witnesses; none excludes a
 built-in type): portable `*` needs `¬ MulGuardExact L R` (automatic for widths that are multiples of
@@ -103,38 +107,97 @@ example : checkedNeg .sat (i32, -2147483648) = .ok (i32, 2147483647) := by decid
 example : checkedNeg .trp (i64, -9223372036854775808) = .trap true := by decide
 example : checkedConvert .thr i8 (u64, 18446744073709551615) = .throws true := by decide
 
-/-- `<<` under a checked tag is total for every count `r ≥ 0` and every operand types, both paths,
-outside the open class `0 << n` with `n ≥` width of the promoted left operand (`-1 << digits` is
-flagged wrongly — a C06 finding — but harmlessly here). -/
+/-- `<<` under a checked tag is total for **every** count `r ≥ 0` (counts at and beyond the width
+included) and every operand types, both paths.  No excluded class since the repair of
+`C07.shl_zero_by_wide_count`. -/
 theorem shl_total (path : Path) (tag : OvTag) (ht : Checked tag) (L R : IntTy) (hL : 1 ≤ L.bits)
     (hR : 1 ≤ R.bits) (hw : L.bits ≤ 2147483647) (l r : Int) (hl : L.InRange l) (hr : R.InRange r)
-    (h0 : 0 ≤ r) (hz : ¬(l = 0 ∧ r ≥ (promote L).bits)) :
+    (h0 : 0 ≤ r) :
     Total (checkedBin path tag .shl (L, l) (R, r)) := by
   obtain ⟨j, rfl⟩ := Int.eq_ofNat_of_zero_le h0
-  exact shl_defined ht hL hR hw hl hr path (by omega)
+  exact shl_defined ht hL hR hw hl hr path
+
+/-- `>>` under a checked tag is total for **every** count `r ≥ 0` (counts at and beyond the width
+included) and every operand types, both paths (since the repair of `C07.shr_count_ge_width`) … -/
+theorem shr_total (path : Path) (tag : OvTag) (ht : Checked tag) (L R : IntTy) (hL : 1 ≤ L.bits)
+    (hR : 1 ≤ R.bits) (hw : L.bits ≤ 2147483647) (l r : Int) (hl : L.InRange l) (hr : R.InRange r)
+    (h0 : 0 ≤ r) :
+    Total (checkedBin path tag .shr (L, l) (R, r)) := by
+  obtain ⟨j, rfl⟩ := Int.eq_ofNat_of_zero_le h0
+  exact shr_defined ht hL hR hw hl hr path
+
+/-- … and returns the mathematically exact `⌊l / 2^r⌋` in the promoted left operand type (0 or −1 once
+every bit is shifted out), never a signal -/
+theorem shr_value (path : Path) (tag : OvTag) (ht : Checked tag) (L R : IntTy) (hL : 1 ≤ L.bits)
+    (hR : 1 ≤ R.bits) (hw : L.bits ≤ 2147483647) (l r : Int) (hl : L.InRange l) (hr : R.InRange r)
+    (h0 : 0 ≤ r) :
+    checkedBin path tag .shr (L, l) (R, r) = .ok (promote L, l / 2^r.toNat) := by
+  obtain ⟨j, rfl⟩ := Int.eq_ofNat_of_zero_le h0
+  rw [Int.toNat_natCast]
+  exact checkedBin_shr_eq hL hR hw hl hr path ht.ne_nat
 
 example : checkedBin .builtin .sat .shl (i32, 1) (i32, 1000) = .ok (i32, 2147483647) := by decide
 example : checkedBin .portable .sat .shl (i8, -1) (u64, 18446744073709551615) = .ok (i32, -2147483648) := by decide
-example : checkedBin .builtin .thr .shl (i64, -1) (u32, 63) = .throws false := by decide
+example : checkedBin .builtin .thr .shl (i64, -1) (u32, 63) = .ok (i64, -9223372036854775808) := by decide +kernel
 example : checkedBin .builtin .sat .shl (i32, 0) (i32, 31) = .ok (i32, 0) := by decide
+-- the formerly undefined instances
+example : checkedBin .builtin .sat .shl (i32, 0) (i32, 64) = .ok (i32, 0) := by decide
+example : checkedBin .portable .sat .shl (u64, 0) (u8, 64) = .ok (u64, 0) := by decide
+example : checkedBin .builtin .sat .shr (i32, 1) (i32, 64) = .ok (i32, 0) := by decide
+example : checkedBin .portable .thr .shr (i8, -128) (u64, 32) = .ok (i32, -1) := by decide
+example : checkedBin .builtin .trp .shr (u32, 4294967295) (i8, 32) = .ok (u32, 0) := by decide
+example : checkedBin .builtin .trp .shr (u32, 4294967295) (i8, 31) = .ok (u32, 1) := by decide +kernel
 
-/-- open finding `C07.shl_zero_by_wide_count`: `0 << 64` executes the built-in shift with an
-out-of-range count -/
+/-- repaired finding `C07.shl_zero_by_wide_count`: **as found** (`checkedShiftOrig`), `0 << 64` executed
+the built-in shift with an out-of-range count; the repaired operator returns 0 -/
 theorem shl_zero_wide_ub :
-    checkedBin .builtin .sat .shl (i32, 0) (i32, 64) = .ub .shiftCount ∧
-    checkedBin .portable .sat .shl (i32, 0) (i32, 64) = .ub .shiftCount ∧
-    ¬ Total (checkedBin .builtin .sat .shl (i32, 0) (i32, 64)) := by
-  refine ⟨by decide, by decide, fun h => ?_⟩
-  have : checkedBin .builtin .sat .shl (i32, 0) (i32, 64) = .ub .shiftCount := by decide
+    checkedShiftOrig .sat .shl (i32, 0) (i32, 64) = .ub .shiftCount ∧
+    ¬ Total (checkedShiftOrig .sat .shl (i32, 0) (i32, 64)) ∧
+    checkedBin .builtin .sat .shl (i32, 0) (i32, 64) = .ok (i32, 0) ∧
+    checkedBin .portable .sat .shl (i32, 0) (i32, 64) = .ok (i32, 0) := by
+  refine ⟨by decide, fun h => ?_, by decide, by decide⟩
+  have : checkedShiftOrig .sat .shl (i32, 0) (i32, 64) = .ub .shiftCount := by decide
   rw [this] at h; exact absurd h.1 (by decide)
 
-/-- open finding `C07.shr_count_ge_width`: no test guards `>>`; a count ≥ width is executed -/
+/-- repaired finding `C07.shr_count_ge_width`: **as found**, no test guarded `>>` and a count ≥ width
+was executed; the repaired operator returns the exact quotient -/
 theorem shr_wide_ub :
-    checkedBin .builtin .sat .shr (i32, 1) (i32, 64) = .ub .shiftCount ∧
-    checkedBin .portable .sat .shr (i32, 1) (i32, 64) = .ub .shiftCount ∧
-    ¬ Total (checkedBin .builtin .sat .shr (i32, 1) (i32, 64)) := by
-  refine ⟨by decide, by decide, fun h => ?_⟩
-  have : checkedBin .builtin .sat .shr (i32, 1) (i32, 64) = .ub .shiftCount := by decide
+    checkedShiftOrig .sat .shr (i32, 1) (i32, 64) = .ub .shiftCount ∧
+    ¬ Total (checkedShiftOrig .sat .shr (i32, 1) (i32, 64)) ∧
+    checkedBin .builtin .sat .shr (i32, 1) (i32, 64) = .ok (i32, 0) ∧
+    checkedBin .portable .sat .shr (i32, -1) (i32, 64) = .ok (i32, -1) := by
+  refine ⟨by decide, fun h => ?_, by decide, by decide⟩
+  have : checkedShiftOrig .sat .shr (i32, 1) (i32, 64) = .ub .shiftCount := by decide
+  rw [this] at h; exact absurd h.1 (by decide)
+
+/-! ## 8. conversion from floating point -/
+
+/-- Conversion from a finite floating-point value under a checked tag is total — in particular the
+float-to-integer cast is never executed out of range — for every format, every integer destination
+whose `2^digits` is finite in the format, every finite operand (since the repair of
+`C07.float_at_limit_not_flagged`). -/
+theorem convert_float_total (tag : OvTag) (ht : Checked tag) (f : Fmt) (hf : FloatP.FmtOk f) (D : IntTy)
+    (hmax : (D.digits : Int) ≤ f.emax) (s : Bool) (m : Nat) (e : Int) (hm : m < 2^f.prec) :
+    Total (checkedConvertFloat tag f D (.fin s m e)) := by
+  rw [checkedConvertFloat_eq ht.ne_nat f hf D hmax s m e hm]
+  split
+  · exact react_defined ht _ _
+  · split
+    · exact react_defined ht _ _
+    · exact good_ok _
+
+example : checkedConvertFloat .sat binary32 i32 (.fin false 8388608 8) = .ok (i32, 2147483647) := by decide +kernel
+example : checkedConvertFloat .trp x87ext i64 (.fin false 9223372036854775808 0) = .trap true := by decide +kernel
+
+/-- repaired finding `C07.float_at_limit_not_flagged`: **as found** (`checkedConvertFloatOrig`),
+`float 2^31 → int32` passed the test and executed an out-of-range cast -/
+theorem float_at_limit_ub :
+    checkedConvertFloatOrig .sat binary32 i32 (.fin false 8388608 8) = .ub .floatToIntRange ∧
+    ¬ Total (checkedConvertFloatOrig .sat binary32 i32 (.fin false 8388608 8)) ∧
+    checkedConvertFloat .sat binary32 i32 (.fin false 8388608 8) = .ok (i32, 2147483647) := by
+  refine ⟨by decide +kernel, fun h => ?_, by decide +kernel⟩
+  have : checkedConvertFloatOrig .sat binary32 i32 (.fin false 8388608 8) = .ub .floatToIntRange := by
+    decide +kernel
   rw [this] at h; exact absurd h.1 (by decide)
 
 end Cnl.C07
